@@ -27,19 +27,20 @@ func (e *pvErr) Error() string { return "pv:" + strconv.Itoa(e.v) }
 // Run is one lane under observation: the recorder of its history and the handles of everything
 // the scenario started.
 type Run struct {
-	Name   string
-	N, Q   int
-	G      *Gate
-	L      *tasklane.TaskLane
-	Record bool // false: no events (pure race hunting, no synchronisation added by the recorder)
+	Name    string
+	N, Q    int
+	G       *Gate
+	L       *tasklane.TaskLane
+	timeout time.Duration
+	Record  bool // false: no events (pure race hunting, no synchronisation added by the recorder)
 
-	mu     sync.Mutex
-	evs    []string
-	nS     map[int]int
-	nF     map[int]int
-	cur    int // tasks between S and F
-	maxCur int
-	waited bool
+	mu      sync.Mutex
+	evs     []string
+	nS      map[int]int
+	nF      map[int]int
+	cur     int // tasks between S and F
+	maxCur  int
+	waited  bool
 	sAfterW int
 
 	tasks    []*Task
@@ -61,7 +62,9 @@ func NewRun(name string, st *SiteTable, n, q int) *Run {
 // Start creates the lane. timeout <= 0 keeps the default (1 s).
 func (r *Run) Start(timeout time.Duration) {
 	r.L = tasklane.New(r.G, r.N, r.Q)
+	r.timeout = time.Second
 	if timeout > 0 {
+		r.timeout = timeout
 		r.L.SetTimeout(timeout)
 	}
 }
@@ -112,14 +115,35 @@ func (r *Run) NewTask(gated bool, sleep time.Duration, panics bool) *Task {
 	if panics {
 		r.nextPV++
 		t.pv = r.nextPV
-		t.pval = r.mkPV(t.pv)
+		t.pval = r.mkPV(t.pv, t.pv%6)
 	}
 	r.tasks = append(r.tasks, t)
 	return t
 }
 
-func (r *Run) mkPV(v int) any {
-	switch v % 6 {
+// Panic value kinds (dynamic types).
+const (
+	PVString  = 0
+	PVError   = 1
+	PVInt     = 2
+	PVStruct_ = 3
+	PVSlice   = 4
+	PVNilPtr  = 5
+)
+
+// NewPanicTask: a task whose Start() panics with a value of the given dynamic type.
+func (r *Run) NewPanicTask(kind int, gated bool) *Task {
+	t := r.NewTask(gated, 0, false)
+	r.mu.Lock()
+	defer r.mu.Unlock()
+	r.nextPV++
+	t.pv = r.nextPV
+	t.pval = r.mkPV(t.pv, kind)
+	return t
+}
+
+func (r *Run) mkPV(v, kind int) any {
+	switch kind {
 	case 0:
 		return "pv:" + strconv.Itoa(v)
 	case 1:
@@ -235,6 +259,11 @@ func (r *Run) StartedCount() int {
 	defer r.mu.Unlock()
 	return len(r.nS)
 }
+func (r *Run) curRunning() int {
+	r.mu.Lock()
+	defer r.mu.Unlock()
+	return r.cur
+}
 func (r *Run) MaxConcurrency() int {
 	r.mu.Lock()
 	defer r.mu.Unlock()
@@ -285,7 +314,23 @@ func (r *Run) PushAs(p int, t *Task, lane int) string {
 	return c.Res
 }
 
-func (r *Run) Push(t *Task, lane int) string { return r.PushAs(r.NewProducer(), t, lane) }
+// Push performs one PushTask call and waits for its answer, but never longer than the liveness bound
+// (plus the lane's timeout when that is short): a call that is still blocked then is reported and left
+// to the shutdown (cancel releases it), so that a deadlocked lane costs seconds, not the lane's timeout.
+func (r *Run) Push(t *Task, lane int) string {
+	c := r.PushAsync(t, lane)
+	d := LiveBound
+	if r.timeout < time.Second {
+		d += r.timeout
+	}
+	select {
+	case <-c.done:
+		return c.Res
+	case <-time.After(d):
+	}
+	r.Violation("progress: PushTask(task %d, lane %d) has not returned after %v (timeout setting %v)", t.ID, lane, d, r.timeout)
+	return "blocked"
+}
 
 func (r *Run) PushAsync(t *Task, lane int) *PushCall {
 	c := &PushCall{P: r.NewProducer(), Lane: lane, T: t, done: make(chan struct{})}
